@@ -1,9 +1,30 @@
 import NmVerif.Proto
+import NmVerif.Arr
+import NmVerif.Index.Tile
 namespace NmVerif.Driver.C04
-open NmVerif NmVerif.Proto
+open NmVerif NmVerif.Proto NmVerif.Index
 
-def handle : Handler := fun op _args =>
+/-- What the harness prints for an indexing view over `data[k] = k`: `ndarray_t::operator()` computes the offset
+    in `size_t` (wraps mod 2^64) and reads `data_.at(offset)`, which throws (→ `oob`) iff `offset ≥ size`;
+    an index outside the shape whose offset stays below `size` is read silently.  `-1` = fill value. -/
+def fmtView (v : Option IxView) : String :=
+  match v with
+  | none => "nothing"
+  | some v =>
+    let st := strides v.src
+    let n := prod v.src
+    let offs : List (Option Nat) := (allIdx v.dst).map (fun d => (v.map d).map (fun i => computeOffset i st % 2^64))
+    if offs.any (fun o => match o with | some k => decide (n ≤ k) | none => false) then "oob"
+    else
+      let data : List Int := offs.map (fun o => match o with | some k => (k : Int) | none => -1)
+      s!"ok shape={fmtNats v.dst} data={fmtInts data}"
+
+def handle : Handler := fun op a =>
   match op with
+  | "tile" => orBad do
+      let s ← a.nats "shape"
+      let r ← a.nats "reps"
+      pure (fmtView (tileView s r))
   | _ => none
 
 end NmVerif.Driver.C04
